@@ -243,6 +243,19 @@ func (p *Path) Inlined(ins ssa.Instruction) bool {
 	return ins.Parent() != p.Fn
 }
 
+// RootSite maps an instruction met at block ordinal i to the instruction of the path's own function
+// that contains it: ins itself, or the outermost inlined call it was reached through.
+func (p *Path) RootSite(i int, ins ssa.Instruction) ssa.Instruction {
+	if p.segFrame == nil || i >= len(p.segFrame) || p.segFrame[i] == 0 {
+		return ins
+	}
+	fr := p.segFrame[i]
+	for p.frames[fr].parent != 0 {
+		fr = p.frames[fr].parent
+	}
+	return p.frames[fr].call
+}
+
 // Exit returns the final instruction (Return, Panic) of the path.
 func (p *Path) Exit() ssa.Instruction {
 	b := p.Blocks[len(p.Blocks)-1]
